@@ -658,3 +658,72 @@ _install_l2 = install
 def install(lib):
     lib.loop_spec("Traph.get_potential_prefix::for#0", LoopSpec(ladder_inv, havoc=ladder_havoc))
     return _install_l2(lib) + [FollowLruCallee(), PotentialPrefix()]
+
+
+# ---------------------------------------------------------------------------- page degrees (C03: the degree figures are the corresponding sums)
+N_PL = z3.Int("n_page_links")
+PL_W = z3.Function("PAGE_LINK_WEIGHT", INT, INT)
+SUMW = z3.Function("SUM_OF_THE_FIRST_WEIGHTS", INT, INT)
+
+
+class PageLinksCallee(Contract):
+    """Traph.get_page_links (contract in contracts/pagination.py) as seen by the degree
+    helpers: the list of the links selected by the switches"""
+
+    qual = "Traph.get_page_links"
+
+    def apply(self, ex, p, recv, args, kw, ln):
+        q = p.fork()
+        q.w["__pl_calls"] = q.w["__pl_calls"] + 1
+        q.w["__pl_lru"] = to_z3(args[0])
+        q.w["__pl_switches"] = tuple(bool(kw.get(k, True)) if isinstance(kw.get(k, True), bool) else kw.get(k) for k in ("include_inbound", "include_internal", "include_outbound"))
+        lst = q.new_obj("list", {"len": N_PL, "elem": lambda k: (fresh("s", BYTES), fresh("t", BYTES), PL_W(k))})
+        q.mut += 1
+        return [(q, lst)]
+
+
+def degree_inv(ex, p):
+    idx = [k for k in p.env if k.startswith("__i")][0]
+    k = to_z3(p.env[idx])
+    return [("total-is-the-sum-of-the-weights-so-far", z3.And(k >= 0, to_z3(p.env["total"]) == SUMW(k)))]
+
+
+class Degree(Contract):
+    """get_page_indegree / outdegree / degree: ONE get_page_links call on the given LRU
+    with exactly the switches the name says; the number of links, or the sum of their
+    weights when weighted"""
+
+    def __init__(self, name, switches):
+        self.qual = "Traph." + name
+        self.switches = switches
+
+    def setups(self, ex):
+        for weighted in (True, False):
+            p = Path()
+            j = z3.Int("j")
+            p.assume(N_PL >= 0)
+            p.assume(SUMW(0) == 0)
+            p.assume(z3.ForAll([j], z3.Implies(j >= 0, SUMW(j + 1) == SUMW(j) + PL_W(j))))
+            p.w["__pl_calls"] = 0
+            p.w["__pl_lru"] = None
+            p.w["__pl_switches"] = None
+            t = p.new_obj("Traph", {})
+            yield p, t, [LRU], {"weighted": weighted}, weighted
+
+    def check(self, ex, p0, res, weighted):
+        for p1, kind, val in res:
+            if kind == "raise":
+                ex.oblige(p1, "raises-nothing(%s)" % val[0], False, val[1])
+                continue
+            ex.oblige(p1, "one-get_page_links-call-on-the-given-lru", z3.BoolVal(False) if p1.w["__pl_calls"] != 1 else p1.w["__pl_lru"] == LRU, None)
+            ex.oblige(p1, "with-exactly-the-switches-the-name-says(inbound,internal,outbound)=%r" % (self.switches,), z3.BoolVal(p1.w["__pl_switches"] == self.switches), None)
+            ex.oblige(p1, "result==sum-of-the-weights" if weighted else "result==number-of-links", to_z3(val) == (SUMW(N_PL) if weighted else N_PL), None)
+
+
+_install_l3 = install
+
+
+def install(lib):
+    for nm in ("get_page_indegree", "get_page_outdegree", "get_page_degree"):
+        lib.loop_spec("Traph.%s::for#0" % nm, LoopSpec(degree_inv))
+    return _install_l3(lib) + [PageLinksCallee(), Degree("get_page_indegree", (True, False, False)), Degree("get_page_outdegree", (False, False, True)), Degree("get_page_degree", (True, True, True))]
